@@ -237,7 +237,9 @@ def gen_case(rng, ctx, force=None):
 def impl_sample(ctx, case, d, tag="c"):
     from aldy.sam import Sample
     from aldy.profile import Profile
-    path = os.path.join(d, f"{tag}.vcf.gz")
+    # a handful of file names reused with other content (a path-keyed cache inside the loader would show)
+    import zlib
+    path = os.path.join(d, f"v{zlib.crc32(tag.encode()) % 4}.vcf.gz")
     write_vcf(path, ctx.gene.chr, CHRLEN if ctx.yaml else 300000000, [f"S{i}" for i in range(case["n_samples"])], case["records"])
     try:
         s = Sample(ctx.gene, Profile("verif", cn_solution=["1", "1"], vcf_sample_idx=case["sample_idx"]), path)
